@@ -359,6 +359,7 @@ func c04List(l []string) *failure {
 
 func init() {
 	props["C04"] = func() {
+		decisive['P'] = "an entry point returns an error for a valid expression, or none for an invalid one (validity = the documented grammar = model `valid`: C05.parseTokens_iff, C04.validate_spec)"
 		res.Rule = "strings: generated valid expressions (single terms and compounds), their random mutations (truncation, deletion, insertion, duplication, tight joining, byte substitution) and fixed edge cases; each is given to ValidateLicenses, ExtractLicenses, Satisfies (both argument positions). Lists: length 0-12 mixing valid, invalid, compound and repeated entries. Non-trivial & distinct = distinct strings"
 		n := scale(10000, 120000)
 		for i := 0; i < n && !timeUp("props_text.go:342"); i++ {
